@@ -49,7 +49,7 @@ inductive Err where
   | locked | watchingOnly | wrongPassphrase | crypto | accountNotFound | addressNotFound
   | duplicateAccount | duplicateAddress | invalidAccount | accountNotCached | notPrivExtKey
   | tooManyAddresses | database | noManager | panic | noTx | txOpen | alreadyExists | noExist | scopeNotFound
-  | notScript | notPubKey
+  | notScript | notPubKey | blockNotFound
 deriving Repr, DecidableEq, Inhabited
 
 inductive AKey where
@@ -727,12 +727,16 @@ def query (d : Disk) (m : Mem) : Query → Mem × QRes
     match aget (d.scopes sc).accts acct with
     | some r => (m, .name r.name)
     | none => (m, .err .accountNotFound)
-  | .used sc k => (m, .used ((d.scopes sc).used.contains k))
+  | .used sc k =>
+    -- `ManagedAddress.Used(ns)`: needs the managed address first (cache, then database), then reads the used bucket
+    match addressOf d m sc k with
+    | .error _ => (m, .used false)
+    | .ok r => (r.1, .used ((d.scopes sc).used.contains k))
   | .syncedTo => (m, .synced m.syncedTo.1 m.syncedTo.2)
   | .blockHash h =>
     match aget d.hashes h with
     | some x => (m, .hash x)
-    | none => (m, .err .addressNotFound)
+    | none => (m, .err .blockNotFound)
 
 /-! ### operations and the step function -/
 
